@@ -8,6 +8,7 @@ package main
 // recursively to a small depth.
 
 import (
+	"os"
 	"fmt"
 	"go/token"
 	"go/types"
@@ -213,6 +214,12 @@ func (e *GuardEngine) Discharge(fn *ssa.Function, goal Poly, ne bool, at ssa.Ins
 		}
 	} else if g.Prove(goal, at) {
 		return Outcome{OK: true, Trail: []string{"proven in " + where}}
+	}
+	if os.Getenv("DLINT_DEBUG_DISCHARGE") != "" && strings.Contains(where, os.Getenv("DLINT_DEBUG_DISCHARGE")) {
+		fmt.Fprintf(os.Stderr, "DISCHARGE fails at %s goal %s\n", where, goal)
+		for _, f := range g.AllFacts(goal, at) {
+			fmt.Fprintf(os.Stderr, "     fact %s   [%s]\n", f, f.Why)
+		}
 	}
 	if depth >= e.Depth {
 		return Outcome{OK: false, Trail: []string{"not proven in " + where + " (lifting depth exhausted)"}}
@@ -572,6 +579,58 @@ func (e *GuardEngine) liftThroughMemory(fn *ssa.Function, g *GuardCtx, goal Poly
 			if !e.t.Is(st.Val) {
 				continue // a store of a value the client does not choose (initialisation)
 			}
+			// a record put together in a local and returned by value (`req.n = N; ...; return req, err`)
+			// reaches shared state only where a caller stores the result: the goal must hold there,
+			// with what the helper's way of returning says about the field
+			if al, isLocal := addrRoot(st.Addr).(*ssa.Alloc); isLocal && al.Parent() == sfn {
+				if ridx, byVal := returnedByValue(sfn, al); byVal {
+					fname := fldKey.Field
+					sites, _ := e.p.staticCallSites(sfn)
+					handled := 0
+					for _, site := range sites {
+						call, isCall := site.(*ssa.Call)
+						if !isCall {
+							continue
+						}
+						var rv ssa.Value = call
+						if sfn.Signature.Results().Len() > 1 {
+							rv = nil
+							for _, ref := range *call.Referrers() {
+								if ex, isEx := ref.(*ssa.Extract); isEx && ex.Index == ridx {
+									rv = ex
+								}
+							}
+						}
+						if rv == nil {
+							continue
+						}
+						cfn := call.Parent()
+						cpc := e.Ctx(cfn).PC
+						pth, okP := cpc.accessPath(rv)
+						if !okP {
+							continue
+						}
+						for _, ref := range *rv.Referrers() {
+							ws, isSt := ref.(*ssa.Store)
+							if !isSt || ws.Val != rv {
+								continue
+							}
+							handled++
+							n++
+							tg := mapSyms(goal, func(sy string) string { return strings.ReplaceAll(sy, fldSym, pth+"."+fname) })
+							tg = envRebase(tg, g, e.Ctx(cfn))
+							o := e.Discharge(cfn, tg, ne, ws, depth+1, seen)
+							if !o.OK {
+								return Outcome{OK: false, Trail: append([]string{fmt.Sprintf("needed for field %s read in %s@%s: %s%s (the record is built by %s and stored at %s)", fldKey, FuncName(fn), e.p.InstrPos(at), goal, condStr(ne), FuncName(sfn), e.p.InstrPos(ws))}, o.Trail...)}, true
+							}
+							trail = append(trail, o.Trail...)
+						}
+					}
+					if handled > 0 {
+						continue
+					}
+				}
+			}
 			n++
 			spc := e.Ctx(sfn).PC
 			w := spc.Of(st.Val)
@@ -699,4 +758,21 @@ func recvRoots(fn *ssa.Function) map[string]string {
 		}
 	}
 	return out
+}
+
+// returnedByValue: the local struct al of fn is what fn returns, by value, as result idx (on some return).
+func returnedByValue(fn *ssa.Function, al *ssa.Alloc) (int, bool) {
+	idx, ok := -1, false
+	Instrs(fn, func(in ssa.Instruction) {
+		ret, isRet := in.(*ssa.Return)
+		if !isRet || ret.Block() == fn.Recover {
+			return
+		}
+		for i := range ret.Results {
+			if ld, isLd := returnedValue(ret, i).(*ssa.UnOp); isLd && ld.Op == token.MUL && ld.X == ssa.Value(al) {
+				idx, ok = i, true
+			}
+		}
+	})
+	return idx, ok
 }
